@@ -448,7 +448,7 @@ def run(tier, pid="C12"):
             )
 
     sys_counts = []
-    cap = 2500 if quick else 4000
+    cap = 2500 if quick else 3000
     for work, faults, bound in systematic_scenarios(tier):
         if not quick:
             bound = max(bound, 3)
@@ -464,7 +464,7 @@ def run(tier, pid="C12"):
         if len(rep.violations) >= 3:
             break
     rng = random.Random(rep.seed * 7919 + 12)
-    nrand = 800 if quick else 8000
+    nrand = 800 if quick else 6000
     for j in range(nrand):
         if len(rep.violations) >= 3:
             break
